@@ -17,24 +17,22 @@ Qed.
 (* the property's quantifier: path templates pairwise non-equivalent *)
 Definition wf_rspec (s : rspec) : Prop := NoDup (map fst (gen_templates s)).
 
-(* the CORS entry never short-circuits: handler installed, or CORS not enabled *)
-Definition cors_ok (s : rspec) (cfg : api_cfg) : Prop := c_cors cfg = true \/ s_cors s = false.
-
-Lemma gen_templates_ok s cfg :
-  cors_ok s cfg -> forall t it, In (t, it) (gen_templates s) -> t <> [] /\ tot (c_cors cfg) it.
+Lemma gen_templates_ok s :
+  forall t it, In (t, it) (gen_templates s) -> t <> [] /\ tot true it.
 Proof.
-  intros Hc t it Hin. unfold gen_templates in Hin. apply in_map_iff in Hin as [p [E _]].
-  injection E as <- <-. split; [apply tmpl_of_raw_nonempty|].
-  destruct Hc as [Hc | Hc]; [left; exact Hc|]. right. unfold gen_item. simpl. now rewrite Hc.
+  intros t it Hin. unfold gen_templates in Hin. apply in_map_iff in Hin as [p [E _]].
+  injection E as <- <-. split; [apply tmpl_of_raw_nonempty|]. left. reflexivity.
 Qed.
 
-Theorem gen_route_match s cfg path m :
-  wf_rspec s -> cors_ok s cfg ->
-  route_root (c_cors cfg) (gen_base s) (gen_tree s) path m
+(* (the route functions do not depend on whether a CORS handler is installed:
+   a preflight entry always yields a handler — the CORS handler or not-found) *)
+Theorem gen_route_match s path m :
+  wf_rspec s ->
+  route_root true (gen_base s) (gen_tree s) path m
   = match_request (gen_templates s) (declared_base s) path m.
 Proof.
-  intros Hwf Hc. rewrite gen_base_norm. unfold gen_tree.
-  apply route_root_match; [exact Hwf | now apply gen_templates_ok].
+  intros Hwf. rewrite gen_base_norm. unfold gen_tree.
+  apply route_root_match; [exact Hwf | apply gen_templates_ok].
 Qed.
 
 (* dispatched => the reported template is the matched operation's template,
@@ -63,7 +61,7 @@ Definition is_spec_request (s : rspec) (cfg : api_cfg) (rq : request) : bool :=
   c_sf cfg && str_eqb (q_path rq) (gen_base s ++ slash :: s_spec_name s).
 
 Definition routed (s : rspec) (cfg : api_cfg) (rq : request) : option res :=
-  route_root (c_cors cfg) (gen_base s) (gen_tree s) (q_path rq) (q_method rq).
+  route_root true (gen_base s) (gen_tree s) (q_path rq) (q_method rq).
 
 Lemma run_auth_inner fields cfg rq refs : Forall is_inner (fst (run_auth fields cfg rq refs)).
 Proof.
@@ -123,8 +121,21 @@ Theorem cors_bypass s cfg rq it :
   Forall no_middleware_event (trace (serve s cfg rq)).
 Proof.
   unfold is_spec_request, routed, serve. intros -> ->.
-  destruct (i_cors it) as [[ms hs]|]; simpl; repeat constructor.
+  destruct (i_cors it) as [[ms hs]|]; [destruct (c_cors cfg), (c_nf cfg)|]; simpl; repeat constructor.
 Qed.
+
+(* C17: without a CORS handler installed the preflight request is not found *)
+Theorem cors_nil_served s cfg rq it ms hs :
+  is_spec_request s cfg rq = false -> routed s cfg rq = Some (RCors it) -> i_cors it = Some (ms, hs) ->
+  c_cors cfg = false ->
+  serve s cfg rq = {| status := 404; trace := if c_nf cfg then [NotFoundEv] else [] |}.
+Proof. unfold is_spec_request, routed, serve. intros -> -> -> ->. reflexivity. Qed.
+
+Theorem cors_installed_served s cfg rq it ms hs :
+  is_spec_request s cfg rq = false -> routed s cfg rq = Some (RCors it) -> i_cors it = Some (ms, hs) ->
+  c_cors cfg = true ->
+  serve s cfg rq = {| status := 204; trace := [CorsEv ms hs] |}.
+Proof. unfold is_spec_request, routed, serve. intros -> -> -> ->. reflexivity. Qed.
 
 (* ------------------------------------------------------------------ *)
 (* C11: security                                                        *)
